@@ -253,7 +253,7 @@ PROPS['C12'] = dict(
 )
 
 PROPS['C11'] = dict(
-    id='C11', domains=['race'], no_model={'race': True}, race_domains=('race',),
+    id='C11', domains=['race'], no_model={'race': True}, race_domains=('race',), per_case_domains=('race',),
     n=dict(quick=dict(race=42), thorough=dict(race=700)),
     theorems=[('Properties.C11', [])],
     kinds={'panic', 'data-race', 'crash'},
